@@ -98,6 +98,9 @@ CALLS = []
 
 def compartment(kind, ts=1):
     K = kit()
+    if kind & 4:
+        # an inert compartment: listed with empty processes / steps / flow / topology
+        return {}, {}, {}, {}
     procs = {'cnt': K['Cnt']({'timestep': ts})}
     steps, flow = {}, {}
     topo = {'cnt': {'s': ('s',)}}
@@ -184,7 +187,7 @@ def gen_history(rng, nupd, allow_bad=True, only_kinds=None):
                     colonies[col][dk] = 0 if mk is not None else None
                     ds.append([dk, None, {'s': {'n': rng.randint(20, 29)}} if rng.random() < 0.3 else {}])
                 else:
-                    ck = rng.randint(0, 3)
+                    ck = 4 if rng.random() < 0.15 else rng.randint(0, 3)
                     colonies[col][dk] = ck
                     ds.append([dk, ck, {'s': {'n': rng.randint(20, 29)}} if rng.random() < 0.3 else {}])
             return ['divide', k, ds, rng.randint(0, 10 ** 6)]
